@@ -7,6 +7,9 @@ gen/Facts_alu.vos gen/Facts_alu.vok gen/Facts_alu.required_vos: gen/Facts_alu.v 
 gen/Facts_escapers.vo gen/Facts_escapers.glob gen/Facts_escapers.v.beautified gen/Facts_escapers.required_vo: gen/Facts_escapers.v 
 gen/Facts_escapers.vio: gen/Facts_escapers.v 
 gen/Facts_escapers.vos gen/Facts_escapers.vok gen/Facts_escapers.required_vos: gen/Facts_escapers.v 
+gen/Facts_limits.vo gen/Facts_limits.glob gen/Facts_limits.v.beautified gen/Facts_limits.required_vo: gen/Facts_limits.v lib/GoInt.vo
+gen/Facts_limits.vio: gen/Facts_limits.v lib/GoInt.vio
+gen/Facts_limits.vos gen/Facts_limits.vok gen/Facts_limits.required_vos: gen/Facts_limits.v lib/GoInt.vos
 lib/Bytes.vo lib/Bytes.glob lib/Bytes.v.beautified lib/Bytes.required_vo: lib/Bytes.v 
 lib/Bytes.vio: lib/Bytes.v 
 lib/Bytes.vos lib/Bytes.vok lib/Bytes.required_vos: lib/Bytes.v 
@@ -28,6 +31,9 @@ model/HTMLEscapeM.vos model/HTMLEscapeM.vok model/HTMLEscapeM.required_vos: mode
 model/HtmlDecode.vo model/HtmlDecode.glob model/HtmlDecode.v.beautified model/HtmlDecode.required_vo: model/HtmlDecode.v lib/Bytes.vo lib/Utf8.vo
 model/HtmlDecode.vio: model/HtmlDecode.v lib/Bytes.vio lib/Utf8.vio
 model/HtmlDecode.vos model/HtmlDecode.vok model/HtmlDecode.required_vos: model/HtmlDecode.v lib/Bytes.vos lib/Utf8.vos
+model/LimitsM.vo model/LimitsM.glob model/LimitsM.v.beautified model/LimitsM.required_vo: model/LimitsM.v lib/GoInt.vo gen/Facts_limits.vo
+model/LimitsM.vio: model/LimitsM.v lib/GoInt.vio gen/Facts_limits.vio
+model/LimitsM.vos model/LimitsM.vok model/LimitsM.required_vos: model/LimitsM.v lib/GoInt.vos gen/Facts_limits.vos
 proofs/Alu_proofs.vo proofs/Alu_proofs.glob proofs/Alu_proofs.v.beautified proofs/Alu_proofs.required_vo: proofs/Alu_proofs.v lib/GoInt.vo gen/Facts_alu.vo model/AluM.vo lib/GoBits.vo
 proofs/Alu_proofs.vio: proofs/Alu_proofs.v lib/GoInt.vio gen/Facts_alu.vio model/AluM.vio lib/GoBits.vio
 proofs/Alu_proofs.vos proofs/Alu_proofs.vok proofs/Alu_proofs.required_vos: proofs/Alu_proofs.v lib/GoInt.vos gen/Facts_alu.vos model/AluM.vos lib/GoBits.vos
@@ -37,9 +43,18 @@ proofs/HTMLEscape_proofs.vos proofs/HTMLEscape_proofs.vok proofs/HTMLEscape_proo
 proofs/HtmlDecode_proofs.vo proofs/HtmlDecode_proofs.glob proofs/HtmlDecode_proofs.v.beautified proofs/HtmlDecode_proofs.required_vo: proofs/HtmlDecode_proofs.v lib/Bytes.vo lib/Utf8.vo model/HtmlDecode.vo
 proofs/HtmlDecode_proofs.vio: proofs/HtmlDecode_proofs.v lib/Bytes.vio lib/Utf8.vio model/HtmlDecode.vio
 proofs/HtmlDecode_proofs.vos proofs/HtmlDecode_proofs.vok proofs/HtmlDecode_proofs.required_vos: proofs/HtmlDecode_proofs.v lib/Bytes.vos lib/Utf8.vos model/HtmlDecode.vos
+proofs/Limits_proofs.vo proofs/Limits_proofs.glob proofs/Limits_proofs.v.beautified proofs/Limits_proofs.required_vo: proofs/Limits_proofs.v lib/GoInt.vo lib/GoBits.vo gen/Facts_limits.vo model/LimitsM.vo
+proofs/Limits_proofs.vio: proofs/Limits_proofs.v lib/GoInt.vio lib/GoBits.vio gen/Facts_limits.vio model/LimitsM.vio
+proofs/Limits_proofs.vos proofs/Limits_proofs.vok proofs/Limits_proofs.required_vos: proofs/Limits_proofs.v lib/GoInt.vos lib/GoBits.vos gen/Facts_limits.vos model/LimitsM.vos
+proofs/Limits_sweeps.vo proofs/Limits_sweeps.glob proofs/Limits_sweeps.v.beautified proofs/Limits_sweeps.required_vo: proofs/Limits_sweeps.v lib/GoInt.vo lib/GoBits.vo gen/Facts_limits.vo model/LimitsM.vo
+proofs/Limits_sweeps.vio: proofs/Limits_sweeps.v lib/GoInt.vio lib/GoBits.vio gen/Facts_limits.vio model/LimitsM.vio
+proofs/Limits_sweeps.vos proofs/Limits_sweeps.vok proofs/Limits_sweeps.required_vos: proofs/Limits_sweeps.v lib/GoInt.vos lib/GoBits.vos gen/Facts_limits.vos model/LimitsM.vos
 props/C01.vo props/C01.glob props/C01.v.beautified props/C01.required_vo: props/C01.v lib/GoInt.vo gen/Facts_alu.vo model/AluM.vo proofs/Alu_proofs.vo
 props/C01.vio: props/C01.v lib/GoInt.vio gen/Facts_alu.vio model/AluM.vio proofs/Alu_proofs.vio
 props/C01.vos props/C01.vok props/C01.required_vos: props/C01.v lib/GoInt.vos gen/Facts_alu.vos model/AluM.vos proofs/Alu_proofs.vos
+props/C20.vo props/C20.glob props/C20.v.beautified props/C20.required_vo: props/C20.v lib/GoInt.vo gen/Facts_limits.vo model/LimitsM.vo proofs/Limits_proofs.vo proofs/Limits_sweeps.vo
+props/C20.vio: props/C20.v lib/GoInt.vio gen/Facts_limits.vio model/LimitsM.vio proofs/Limits_proofs.vio proofs/Limits_sweeps.vio
+props/C20.vos props/C20.vok props/C20.required_vos: props/C20.v lib/GoInt.vos gen/Facts_limits.vos model/LimitsM.vos proofs/Limits_proofs.vos proofs/Limits_sweeps.vos
 props/C24.vo props/C24.glob props/C24.v.beautified props/C24.required_vo: props/C24.v lib/Bytes.vo gen/Facts_HTMLEscape.vo model/HTMLEscapeM.vo model/HtmlDecode.vo proofs/HTMLEscape_proofs.vo
 props/C24.vio: props/C24.v lib/Bytes.vio gen/Facts_HTMLEscape.vio model/HTMLEscapeM.vio model/HtmlDecode.vio proofs/HTMLEscape_proofs.vio
 props/C24.vos props/C24.vok props/C24.required_vos: props/C24.v lib/Bytes.vos gen/Facts_HTMLEscape.vos model/HTMLEscapeM.vos model/HtmlDecode.vos proofs/HTMLEscape_proofs.vos
